@@ -47,8 +47,11 @@ PROPS["C13"] = {
                    "c13::c13_unit_and_fmt_errors", "c13::c13_io_error_all_os_codes", "c13::c13_io_error_non_os",
                    "c13::c13_negative_twin"],
          "timeout": 900},
+        {"id": "e2e", "crate": "gen",
+         "quick": ["c13e::c13e_roundtrip", "c13e::c13e_io_codes", "c13e::c13e_vtable_level", "c13e::c13e_negative_twin"],
+         "timeout": 900},
     ],
-    "negative": ["c13::c13_negative_twin"],
+    "negative": ["c13::c13_negative_twin", "c13e::c13e_negative_twin"],
     "bounds": "Ok/Err symbolic; u64/u32 payloads and the pre-filled slot sentinel full range; ALL 2^32 i32 OS error codes; "
               "6 enumerated non-OS ErrorKind constructors; end-to-end generated int_result methods are decided in the gen "
               "crate (see harnesses prefixed c13e_)",
@@ -237,6 +240,141 @@ PROPS["C05"] = {
         "CBMC 6.11 mis-models memmove with symbolic offset/length on a stack array of u64 (spurious, non-replaying "
         "counterexample): the foreign-CVec insertion index is therefore enumerated",
     ],
+}
+
+PROPS["C01"] = {
+    "crate": "gen",
+    "groups": [
+        {"id": "core",
+         "quick": ["c01::c01_reader_box_k3", "c01::c01_reader_ref_k3", "c01::c01_reader_mut_k3", "c01::c01_reader_arc_k3",
+                   "c01::c01_reader_ctxbox_k3", "c01::c01_counter_box_k3", "c01::c01_counter_mut_k3", "c01::c01_counter_ctxbox_k3",
+                   "c01::c01_consume_box_k2", "c01::c01_consume_ctxbox_k2", "c01::c01_group_consume", "c01::c01_group_box_k3",
+                   "c01::c01_group_cast_k2", "c01::c01_group_mut_k3", "c01::c01_generic_and_lifetime_traits",
+                   "c01::c01_negative_twin"],
+         "thorough_adds": ["c01::c01_reader_box_k4", "c01::c01_reader_ref_k4", "c01::c01_reader_arc_k4", "c01::c01_counter_box_k4",
+                           "c01::c01_counter_mut_k4", "c01::c01_counter_ctxbox_k4", "c01::c01_consume_box_k3",
+                           "c01::c01_consume_ctxbox_k3", "c01::c01_group_box_k4", "c01::c01_group_cast_k3", "c01::c01_group_mut_k4"],
+         "timeout": 3000},
+    ],
+    "negative": ["c01::c01_negative_twin"],
+    "bounds": "every call sequence of length 3 (thorough 4) with the operation and all arguments symbolic at every step, symbolic "
+              "initial state; return values compared after every call, full state incl. call log (calls, last method id, argument "
+              "digest) after every step; enumerated corpus: a 5-method &self trait (incl. extern \"C\" method, slice and Option "
+              "arguments), a 9-method mixed-receiver trait (&self, &mut self, Pin<&mut Self>, Pin<&Self>, int_result, mutable "
+              "slice, Option swap, skip_func), a trait with a by-value method, a generic trait, a lifetime-parameterised trait; "
+              "containers Box / &mut / & / CArcSome / Box+context; single-trait object, group, as_ref!/as_mut! views, cast!, "
+              "into!, cast back (From)",
+    "outside": "the 'programs' quantifier is bounded by the enumerated corpus (the generator itself - a syn/quote program over "
+               "heap token trees - is not executed symbolically); sequences longer than 4 (the per-step state equality is an "
+               "inductive argument a reader can make, it is not claimed); custom_impl / vtbl_only methods (excluded by the "
+               "statement); panics",
+    "assumptions": KANI_ASSUME + [
+        "cglue-macro / cglue-gen are compiled for the host from /repo's working tree and RUN on the corpus when the harness "
+        "crate is compiled: CBMC executes the generator's actual output",
+        "oracle: the direct trait call on a twin with the same symbolic initial state",
+    ],
+}
+
+PROPS["C02"] = {
+    "crate": "gen",
+    "groups": [
+        {"id": "shapes",
+         "quick": ["c02::c02_args_slices", "c02::c02_args_mutable", "c02::c02_args_values", "c02::c02_args_callback_iterator",
+                   "c02::c02_returns", "c02::c02_boxed_object", "c02::c02_negative_twin"],
+         "timeout": 1800},
+    ],
+    "negative": ["c02::c02_negative_twin"],
+    "bounds": "shapes {&[u8], &[u64], &[ZST], &mut [u8], &str (symbolic ASCII + fixed multi-byte + empty), Option<u32>, Option<&u64>, "
+              "Result<u32,u8>, impl Into<u64>, repr(C) struct by value, &mut u64, two slices, OpaqueCallback<u8>, CIterator<u8>} in "
+              "argument position and {&[u8], &[u64], &mut [u8], &str, Option<u32>, Option<&u64>, Result<u64,u8>, int-coded "
+              "Result<u64,()> and Result<(),()>, struct, extreme i64} in return position; slice lengths 0..=4 and all contents, "
+              "variants, integers symbolic; the implementor records address/length/elements of what it received",
+    "outside": "shapes not listed; element types beyond {u8,u64,ZST}; strings are ASCII-symbolic plus fixed multi-byte samples "
+               "(into_str is unchecked: validity is the caller's contract)",
+    "assumptions": KANI_ASSUME,
+}
+
+PROPS["C04"] = {
+    "crate": "gen",
+    "groups": [
+        {"id": "layout",
+         "quick": ["c04::c04_vtbl_counter", "c04::c04_vtbl_reader_consume_gen", "c04::c04_group_words",
+                   "c04::c04_object_words_and_sizes", "c04::c04_negative_twin"],
+         "timeout": 900},
+    ],
+    "negative": ["c04::c04_negative_twin"],
+    "bounds": "raw words of 5 corpus vtables vs the per-name getters in declaration order (size == n words, entries distinct and "
+              "non-null, #[skip_func] method not exported); raw words of a boxed group with a visible context: mandatory vtable, "
+              "optional vtables in name order with SYMBOLIC presence (null iff absent, equal to that trait's vtable when present), "
+              "instance pointer, drop function, context; concrete vs opaque form bit-identical; cast result has the group's "
+              "words; size/align equalities",
+    "outside": "the clause 'expanding the same definitions again, in another process or crate, yields the same layout' "
+               "(determinism of a proc-macro under fresh hash seeds - no solver query expresses it); definitions outside the corpus",
+    "assumptions": KANI_ASSUME,
+}
+
+PROPS["C06"] = {
+    "crate": "gen",
+    "groups": [
+        {"id": "lifecycle",
+         "quick": ["c06::c06_object_paths", "c06::c06_group_paths", "c06::c06_clone_and_self_return",
+                   "c06::c06_borrowing_objects_do_not_drop", "c06::c06_boxed_parent_borrowed_child", "c06::c06_cbox_paths",
+                   "c06::c06_cslicebox", "c06::c06_negative_twin"],
+         "cbmc_args": LEAK, "timeout": 1800},
+    ],
+    "negative": ["c06::c06_negative_twin"],
+    "bounds": "symbolic lifecycle-path selector over {drop, move, consuming call, by-value call returning a wrapped object, owned "
+              "child object / group in both drop orders, cast hit and miss (enabled set symbolic), cast back, into!, as_ref!/"
+              "as_mut!, Clone extension and Self-returning method in both drop orders, by-reference and by-mutable-reference "
+              "objects incl. borrowed wrapped returns, CBox constructors / opaque / into_inner, CSliceBox of length 0..=3}; "
+              "drop-counted payloads (second drop fails in the harness); CBMC leak check; size-matched free",
+    "outside": "unwinding through a panicking method; alignment part of the layout (Kani's allocator model ignores alignment); "
+               "paths longer than 3 lifecycle operations",
+    "assumptions": KANI_ASSUME,
+}
+
+PROPS["C07"] = {
+    "crate": "gen",
+    "groups": [
+        {"id": "context",
+         "quick": ["c07::c07_owned_tree", "c07::c07_consuming_call_keeps_context", "c07::c07_clone_cast_selfreturn",
+                   "c07::c07_kf_borrowed_obj_ref", "c07::c07_kf_borrowed_obj_mut", "c07::c07_kf_borrowed_group_ref",
+                   "c07::c07_negative_twin"],
+         "cbmc_args": LEAK, "timeout": 1800},
+    ],
+    "negative": ["c07::c07_negative_twin"],
+    "known": {
+        "c07::c07_kf_borrowed_obj_ref": {"key": "C07/borrowed-wrapped-return/obj_ref", "match": ["borrowed child (obj_ref): context count back"]},
+        "c07::c07_kf_borrowed_obj_mut": {"key": "C07/borrowed-wrapped-return/obj_mut", "match": ["borrowed child (obj_mut): context count back"]},
+        "c07::c07_kf_borrowed_group_ref": {"key": "C07/borrowed-wrapped-return/group_ref", "match": ["borrowed child (group_ref): context count back"]},
+    },
+    "bounds": "trees of <= 3 objects sharing one counted context: symbolic sequences of 3 operations over {obtain owned child, "
+              "obtain owned group child, drop a child}, symbolic ending {drop, finish, into_leaf}, both child drop orders; "
+              "count == 1 + holders after every step and back to the start at the end; by-value calls: the implementor "
+              "records the count seen inside the method body and while the consumed value is dropped inside the callee; "
+              "clone / Self return / cast / into of a group with context. Borrowed-child scenarios are separate known-finding "
+              "harnesses",
+    "outside": "std::sync::Arc / CArc as the context type (the counted context exercises the same generated clone/move plumbing; "
+               "CArc itself is C10's subject); trees of more than 3 objects",
+    "assumptions": KANI_ASSUME + ["context = harness-defined Clone + Send + Sync type counting clones/drops in statics"],
+}
+
+PROPS["C08"] = {
+    "crate": "gen",
+    "groups": [
+        {"id": "casts",
+         "quick": ["c08::c08_g3_box", "c08::c08_g3_mut", "c08::c08_ref_container", "c08::c08_impl_types_g3", "c08::c08_negative_twin"],
+         "thorough_adds": ["c08::c08_g4_box", "c08::c08_g4_mut"],
+         "timeout": 3000},
+    ],
+    "negative": ["c08::c08_negative_twin"],
+    "bounds": "groups with n = 3 (thorough also n = 4) optional traits; the ENABLED set is symbolic (all 2^n sets in one query, "
+              "construction through Group::new) or selected symbolically among 8 implementing types generated through "
+              "cglue_impl_group!; every non-empty requested subset (7 / 15 generated methods, selected symbolically) x {check, "
+              "as_ref, as_mut, cast + upcast, into}; Box and &mut containers, & container with read-only traits; same-instance "
+              "dispatch checked through per-trait constants mixed with the symbolic instance state",
+    "outside": "n > 4; aliased generic instantiations of one trait inside a group",
+    "assumptions": KANI_ASSUME,
 }
 
 # <<SPECS-END>>
